@@ -2015,7 +2015,7 @@ class Stream(AbstractStream):
         new.equations = self.equations
         new.characterization_factors = self.characterization_factors
         if hasattr(self, '_streams'): # MultiStream
-            new._streams = self._streams
+            new._streams = {} # Own phase views (over the shared data); sharing the dict would hand them to whoever unlinks
             new._vle_cache = self._vle_cache
             new._lle_cache = self._lle_cache
             new._sle_cache = self._sle_cache
